@@ -12,8 +12,9 @@ def register(S):
     WF = "implies(haskey(self._dict, key), slot_ok(self._dict[key]))"
     S.contract(F + "add", params={"self": "obj:RefCountingColl", "key": "val", "obj": "val"}, requires=[WF],
                ensures={"one_more_box": ("boxes(self._dict, key) == after_add(old(boxes(self._dict, key)))", P10),
-                        "object_kept_or_stored": ("same(lent(self._dict, key), old(lent(self._dict, key)) "
-                                                  "if old(haskey(self._dict, key)) else obj)", P10),
+                        # (under T-ID what is already lent under this id IS obj, so keeping it or storing obj are the same)
+                        "object_kept_or_stored": ("same(lent(self._dict, key), obj) or (old(haskey(self._dict, key)) and "
+                                                  "same(lent(self._dict, key), old(lent(self._dict, key))))", P10),
                         "slot_well_formed": ("slot_ok(self._dict[key])", P10),
                         "other_ids_untouched": ("unchanged_except(self._dict, key)", P10)},
                raises={}, modifies=["self._dict"])
